@@ -890,3 +890,103 @@ Proof.
   - pose proof (CG_steps K _ _ H) as Hc. cbn [fst snd] in Hc. apply Hc.
     split; [apply (run_ops_G K ops st0 [] G_st0) | apply aG_start].
 Qed.
+
+(* ---------- every summary a job writes is the cut_read of its cut at that moment ---------- *)
+(* the job's loop over its sorted plan: state before each cut, the value read, the state after the write *)
+Inductive cuts_fed (K : consts) (snap : list ev) (stride : N) : st -> list plan -> st -> list created -> Prop :=
+| cf_nil s : cuts_fed K snap stride s [] s []
+| cf_cons s p v s2 c ps s' made :
+    cut_read K snap s p = Ok v ->
+    run_cut K snap stride s p = Ok (s2, c) ->
+    arts s2 = arts s ++ [(cr_art c, v)] -> cr_seq c = pl_seq p -> cr_mid c = pl_mid p ->
+    cuts_fed K snap stride s2 ps s' made ->
+    cuts_fed K snap stride s (p :: ps) s' (c :: made).
+
+Lemma run_cuts_fed K snap stride : forall ps s acc s' made,
+  run_cuts K snap stride s ps acc = (s', made, None) ->
+  exists new, made = acc ++ new /\ cuts_fed K snap stride s ps s' new.
+Proof.
+  induction ps as [|p ps IH]; intros s acc s' made H; cbn [run_cuts] in H.
+  - injection H as <- <-. exists []. rewrite app_nil_r. split; [reflexivity | constructor].
+  - destruct (run_cut K snap stride s p) as [[s2 c]|e] eqn:E; [|discriminate].
+    destruct (IH _ _ _ _ H) as [new [-> Hf]].
+    destruct (run_cut_writes_inputs K snap stride s p s2 c E) as [v [Hr [Ha [_ [Hs Hm]]]]].
+    exists (c :: new). split; [rewrite <- app_assoc; reflexivity|].
+    eapply cf_cons; eassumption.
+Qed.
+
+(* artifacts are only ever added by the loop: what a cut wrote is still readable at the end *)
+Lemma cuts_fed_arts K snap stride s ps s' made :
+  cuts_fed K snap stride s ps s' made -> exists extra, arts s' = arts s ++ extra.
+Proof.
+  induction 1 as [s | s p v s2 c ps s' made Hr Hc Ha Hs Hm Hf IH]; [exists []; rewrite app_nil_r; reflexivity|].
+  destruct IH as [extra He]. exists ((cr_art c, v) :: extra). rewrite He, Ha, <- app_assoc. reflexivity.
+Qed.
+
+Lemma art_get_app_keep a m extra v : art_get a m = Some v -> art_get a (m ++ extra) = Some v.
+Proof. apply art_get_app_some. Qed.
+
+(* the created list names, cut by cut, a readable summary equal to the value read for that cut *)
+Inductive fed_at (K : consts) (snap : list ev) (final : st) : list (list ev) -> list plan -> list created -> Prop :=
+| fa_nil : fed_at K snap final [] [] []
+| fa_cons cur curs p ps c made v s :
+    log s = cur -> cut_read K snap s p = Ok v -> art_read final (cr_art c) = Some v ->
+    cr_seq c = pl_seq p -> cr_mid c = pl_mid p ->
+    fed_at K snap final curs ps made -> fed_at K snap final (cur :: curs) (p :: ps) (c :: made).
+
+Lemma cuts_fed_at K snap stride s ps s' made :
+  cuts_fed K snap stride s ps s' made ->
+  forall final, (exists extra, arts final = arts s' ++ extra) ->
+  exists curs, fed_at K snap final curs ps made /\ length curs = length ps
+               /\ match curs with [] => True | cur :: _ => cur = log s end.
+Proof.
+  induction 1 as [s | s p v s2 c ps s' made Hr Hc Ha Hs Hm Hf IH]; intros final Hfin.
+  - exists []. split; [constructor | split; [reflexivity | exact I]].
+  - destruct (IH final Hfin) as [curs [Hfa [Hlen _]]].
+    exists (log s :: curs). split; [|split; [cbn; lia | reflexivity]].
+    eapply fa_cons with (s := s); try eassumption; [reflexivity|].
+    destruct (cuts_fed_arts _ _ _ _ _ _ _ Hf) as [e1 He1]. destruct Hfin as [e2 He2].
+    assert (Hall : arts final = (arts s ++ [(cr_art c, v)]) ++ (e1 ++ e2)).
+    { rewrite He2, He1, Ha. rewrite <- (app_assoc _ e1 e2). reflexivity. }
+    assert (Hg : art_get (cr_art c) (arts s ++ [(cr_art c, v)]) = Some v).
+    { pose proof Hc as Hc2. apply run_cut_log in Hc2. destruct Hc2 as [v' [Hs2 [Hcc _]]]. rewrite Hcc. cbn [mk_created cr_art].
+      rewrite Hcc in Ha. cbn [mk_created cr_art] in Ha.
+      apply art_get_app_fresh. apply fresh_art_not_key. }
+    unfold art_read. rewrite Hall, (art_get_app_some _ _ (e1 ++ e2) _ Hg).
+    apply cut_read_covers in Hr. destruct Hr as [_ [_ [Hp _]]]. rewrite Hp. reflexivity.
+Qed.
+
+(* compaction_auto_v1, completed: with s1 = the stream right after job_spawned (the job's replay snapshot), the result
+   lists, in ascending to_seq order of the plan, one created checkpoint per planned cut whose summary is readable at
+   the end and equals cut_read of that cut on (snapshot s1, the stream at that moment); the first cut reads s1 itself *)
+Theorem auto_summaries_fed K ostride omax odry s s' r :
+  auto K ostride omax odry s = (s', Ok r) -> ar_status r = 2 ->
+  exists j curs,
+    ar_job r = Some j
+    /\ fed_at K (log (append s (BJobSpawned j (ar_planned r) (ar_stride r)))) s' curs (plan_sort (ar_planned r)) (ar_result r)
+    /\ length curs = length (plan_sort (ar_planned r))
+    /\ match curs with [] => True | cur :: _ => cur = log (append s (BJobSpawned j (ar_planned r) (ar_stride r))) end.
+Proof.
+  unfold auto. destruct (opt_or ostride (k_default_stride K) =? 0); [discriminate|].
+  set (stride := opt_or ostride (k_default_stride K)).
+  set (maxnew := clamp (k_maxnew_lo K) (k_maxnew_hi K) (opt_or omax 1)).
+  unfold auto_spawn. destruct (plan_cuts K stride maxnew (log s)) as [|p0 pr] eqn:Ep.
+  - cbn [ar_job]. intros H. injection H as <- <-. cbn [ar_status]. discriminate.
+  - destruct (opt_orb odry false).
+    + cbn [ar_job]. intros H. injection H as <- <-. cbn [ar_status]. discriminate.
+    + cbn [ar_job ar_planned ar_count]. unfold run_job.
+      set (s1 := append s (BJobSpawned (fresh_job (log s)) (p0 :: pr) stride)).
+      destruct (run_cuts K (log s1) stride s1 (plan_sort (p0 :: pr)) []) as [[sx made] err] eqn:Er.
+      intros H. injection H as <- <-. cbn [ar_status ar_job ar_planned ar_stride ar_result].
+      destruct err as [e|]; [discriminate|]. intros _.
+      exists (fresh_job (log s)). destruct (run_cuts_fed K (log s1) stride _ _ _ _ _ Er) as [new [Hn Hf]].
+      cbn [app] in Hn. subst made.
+      destruct (cuts_fed_at K (log s1) stride s1 _ sx new Hf (append sx (BJobEnded (fresh_job (log s)) 0 new))) as [curs [Hfa [Hl Hh]]].
+      { exists []. unfold append. cbn [arts]. rewrite app_nil_r. reflexivity. }
+      exists curs. split; [reflexivity|]. split; [exact Hfa|]. split; [exact Hl | exact Hh].
+Qed.
+
+Lemma demo7_auto_completed :
+  exists r, auto real_consts (Some 2) (Some 2) None demo7 = (demo7_after, Ok r) /\ ar_status r = 2
+            /\ map cr_seq (ar_result r) = [5; 7].
+Proof. vm_compute. eexists. split; [reflexivity|]. split; reflexivity. Qed.
